@@ -35,9 +35,16 @@ func genShellString(t *rapid.T, label string, pathSafe bool) string {
 	var b strings.Builder
 	n := rapid.IntRange(0, 6).Draw(t, label+"Parts")
 	for i := 0; i < n; i++ {
-		if rapid.IntRange(0, 2).Draw(t, label+"Word") == 0 {
+		switch rapid.IntRange(0, 6).Draw(t, label+"Word") {
+		case 0, 1:
 			b.WriteString(rapid.SampledFrom(shellWords).Draw(t, label+"W"))
-		} else {
+		case 2:
+			// a run of one character (blank lines, "   ", "\\\\\\", "$$$"): text
+			// processing of the finished script (squeezing, trimming) shows
+			// only on repetitions.
+			r := rapid.RuneFrom(shellRunes).Draw(t, label+"RunOf")
+			b.WriteString(strings.Repeat(string(r), rapid.IntRange(2, 5).Draw(t, label+"RunLen")))
+		default:
 			b.WriteString(rapid.StringOfN(rapid.RuneFrom(shellRunes), 1, 5, -1).Draw(t, label+"R"))
 		}
 	}
